@@ -7,6 +7,7 @@ import (
 	"sort"
 
 	errorsmod "cosmossdk.io/errors"
+	storetypes "github.com/cosmos/cosmos-sdk/store/types"
 	sdk "github.com/cosmos/cosmos-sdk/types"
 	"github.com/ethereum/go-ethereum/common"
 	ethtypes "github.com/ethereum/go-ethereum/core/types"
@@ -31,7 +32,14 @@ var _ vm.StateDB = &StateDB{}
 // * Accounts
 type StateDB struct {
 	keeper Keeper
-	ctx    sdk.Context
+	// ctx is the context all reads and writes go to. It is the context the StateDB was created
+	// with until the first stateful precompile is called; from then on it is a branch of that
+	// context (see BeginPrecompileCall) which is written back when the StateDB is committed.
+	ctx sdk.Context
+	// origCtx is the context the StateDB was created with.
+	origCtx sdk.Context
+	// branched tells whether ctx is a branch of origCtx.
+	branched bool
 
 	// Journal of state modifications. This is the backbone of
 	// Snapshot and RevertToSnapshot.
@@ -58,6 +66,7 @@ func New(ctx sdk.Context, keeper Keeper, txConfig TxConfig) *StateDB {
 	return &StateDB{
 		keeper:       keeper,
 		ctx:          ctx,
+		origCtx:      ctx,
 		stateObjects: make(map[common.Address]*stateObject),
 		journal:      newJournal(),
 		accessList:   newAccessList(),
@@ -464,9 +473,89 @@ func (s *StateDB) SyncBalances() {
 	}
 }
 
+// BeginPrecompileCall prepares the call of a stateful precompile and returns the context the
+// precompile has to work on.
+//
+// A stateful precompile runs SDK message servers and queries directly on the sdk.Context, so the
+// EVM state accumulated in memory has to be written to the store first, and whatever the
+// precompile writes ends up in the store as well. Both have to disappear again if the call
+// frame (or one of its ancestors) fails later. Therefore all of this happens on a branch of the
+// transaction's context: before anything is written, a copy of the branch (together with the
+// events emitted so far and the in-memory bookkeeping that describes what the store contains) is
+// recorded in the journal; reverting the journal past that entry puts the copy back.
+func (s *StateDB) BeginPrecompileCall() (sdk.Context, error) {
+	if !s.branched {
+		cms := s.origCtx.MultiStore().CacheMultiStore()
+		s.ctx = s.origCtx.WithMultiStore(cms).WithEventManager(sdk.NewEventManager())
+		s.branched = true
+	}
+	cms, ok := s.ctx.MultiStore().(storetypes.CacheMultiStore)
+	if !ok {
+		return sdk.Context{}, fmt.Errorf("precompile call: the branched context does not hold a cache multi store")
+	}
+	entry := precompileCallChange{
+		multiStore: cms.Copy(),
+		events:     append(sdk.Events{}, s.ctx.EventManager().Events()...),
+		transient:  make(map[common.Address]Storage, len(s.stateObjects)),
+		balances:   make(map[common.Address]*big.Int, len(s.stateObjects)),
+	}
+	for addr, obj := range s.stateObjects {
+		entry.transient[addr] = obj.transientStorage.Copy()
+		entry.balances[addr] = new(big.Int).Set(obj.Balance())
+	}
+	s.journal.append(entry)
+
+	// make the in-memory EVM state visible to the precompile
+	if err := s.commit(); err != nil {
+		return sdk.Context{}, err
+	}
+	return s.ctx, nil
+}
+
+// revertPrecompileCall puts the state recorded by BeginPrecompileCall back.
+func (s *StateDB) revertPrecompileCall(ch precompileCallChange) {
+	em := sdk.NewEventManager()
+	em.EmitEvents(ch.events)
+	s.ctx = s.ctx.WithMultiStore(ch.multiStore).WithEventManager(em)
+	for addr, obj := range s.stateObjects {
+		if t, ok := ch.transient[addr]; ok {
+			obj.transientStorage = t
+		} else {
+			obj.transientStorage = make(Storage)
+		}
+		if obj.suicided {
+			continue
+		}
+		if b, ok := ch.balances[addr]; ok {
+			// SyncBalances refreshed the cached balance after the precompile ran
+			obj.account.Balance = b
+		} else if account := s.keeper.GetAccount(s.ctx, addr); account != nil && account.Balance != nil {
+			// loaded after the call began: what the restored store says
+			obj.account.Balance = account.Balance
+		} else {
+			obj.account.Balance = new(big.Int)
+		}
+	}
+}
+
 // Commit writes the dirty states to keeper
 // the StateDB object should be discarded after committed.
 func (s *StateDB) Commit() error {
+	if err := s.commit(); err != nil {
+		return err
+	}
+	if s.branched {
+		// hand the branch used by the precompile calls (and its events) over to the transaction's context
+		s.origCtx.EventManager().EmitEvents(s.ctx.EventManager().Events())
+		s.ctx.MultiStore().(storetypes.CacheMultiStore).Write()
+		s.ctx = s.origCtx
+		s.branched = false
+	}
+	return nil
+}
+
+// commit writes the dirty states to the keeper on the current context.
+func (s *StateDB) commit() error {
 	for _, addr := range s.journal.sortedDirties() {
 		obj := s.stateObjects[addr]
 		if obj.suicided {
